@@ -290,6 +290,16 @@ func execSig(x *Exec, toks []string) string {
 				before = string(bz)
 			}
 		}
+		// the account that owns the supplied key (if any) is watched as well: it must not change either
+		var keyAddr sdk.AccAddress
+		var keyBefore string
+		if pk != nil {
+			keyAddr = sdk.AccAddress(pk.Address())
+			if ai := app.AccountKeeper.GetAccount(x.ctx, keyAddr); ai != nil {
+				bz, _ := app.AppCodec().MarshalInterfaceJSON(ai)
+				keyBefore = string(bz)
+			}
+		}
 		msg := &sigtypes.MsgCreateAccount{Creator: c.s, AccAddressString: a.s, PubKeyString: pkJSON}
 		res, _ := x.deliver(msg.ValidateBasic, func(ctx sdk.Context) error {
 			_, err := ms.CreateAccount(sdk.WrapSDKContext(ctx), msg)
@@ -297,6 +307,16 @@ func execSig(x *Exec, toks []string) string {
 		})
 		if res == "panic" {
 			x.hit("C20", "message-panics", toks[0], "handler or ValidateBasic panicked")
+		}
+		if keyBefore != "" {
+			after := "absent"
+			if ai := app.AccountKeeper.GetAccount(x.ctx, keyAddr); ai != nil {
+				bz, _ := app.AppCodec().MarshalInterfaceJSON(ai)
+				after = string(bz)
+			}
+			if after != keyBefore {
+				x.hit("C09", "existing-account-changed", toks[0], fmt.Sprintf("%s (owner of the supplied key): %s -> %s", keyAddr.String(), keyBefore, after))
+			}
 		}
 		state := "absent"
 		if a.ok {
@@ -564,6 +584,24 @@ func genSig(g *Gen, n int) {
 			}
 			g.emit("s.createAccount %s %s %s %s", creator, atok(target), esc(pkJSON), class)
 			g.emit("s.accountInfo %s", esc(target))
+		}
+		// directed shape: the key of an EXISTING account (base with key, or a vesting account) supplied
+		// for a different, unused address - neither account may be created or changed
+		{
+			victim := keyedAddr(1 + g.intn(3))
+			kp := keyedPubFor(victim)
+			if kp != nil {
+				pkBz, err := genEnv().app.AppCodec().MarshalInterfaceJSON(kp)
+				if err != nil {
+					panic(err)
+				}
+				g.emit("s.acct %s basekey", victim)
+				fresh := sdk.AccAddress(secp256k1.GenPrivKey().PubKey().Address()).String()
+				g.emit("s.createAccount %s %s %s nomatch", creator, atok(fresh), esc(string(pkBz)))
+				g.emit("s.accountInfo %s", esc(victim))
+				g.emit("s.accountInfo %s", esc(fresh))
+				g.count("shape/foreign-key-for-unused-address")
+			}
 		}
 		g.emit("s.accountInfo %s", esc(g.pick("garbage", "", vaddr(49))))
 		g.emit("s.end")
